@@ -202,4 +202,80 @@ theorem applyConfig_idempotent (nm : Naming) (a a' : Attr) (es : List Entry) (h 
           exact hax ⟨p.2, by rw [← hpx]; exact hp⟩
         exact applyPairs_untouched ps (applyPairs a ps) x hun
 
+/-! ### malformed entries, and what a refusal leaves behind
+
+    A configuration as the user WRITES it may hold entries that are not well formed (a priority that is not an int, an
+    entry that is not a mapping — an empty YAML entry).  Aliases and ambiguity are checked first (`_expand_config`,
+    `detect_duplicates`), then every entry is validated, and only then is anything applied: `reconfigure` is the DAG's
+    attribute state after `config_from_dict` RETURNED OR RAISED.  A refused configuration — whatever the reason, wherever
+    the offending entry stands — leaves the attributes, hence the compound priorities, exactly as they were. -/
+
+structure RawEntry where
+  entry : Entry
+  wellFormed : Bool
+
+inductive RawErr where
+  | cfg (e : CfgErr)
+  | malformed
+deriving DecidableEq, Repr
+
+def applyRaw (nm : Naming) (a : Attr) (res : List RawEntry) : Except RawErr Attr :=
+  match applyConfig nm a (res.map (·.entry)) with
+  | .error e => .error (.cfg e)
+  | .ok a' => if res.all (·.wellFormed) then .ok a' else .error .malformed
+
+/-- the attribute state after the call, accepted or refused -/
+def reconfigure (nm : Naming) (a : Attr) (res : List RawEntry) : Attr :=
+  match applyRaw nm a res with
+  | .ok a' => a'
+  | .error _ => a
+
+theorem applyRaw_ok_iff (nm : Naming) (a a' : Attr) (res : List RawEntry) :
+    applyRaw nm a res = .ok a' ↔ (applyConfig nm a (res.map (·.entry)) = .ok a' ∧ ∀ r ∈ res, r.wellFormed = true) := by
+  unfold applyRaw
+  cases h : applyConfig nm a (res.map (·.entry)) with
+  | error e => simp
+  | ok b =>
+    by_cases hw : res.all (·.wellFormed) = true
+    · simp only [hw, if_true]
+      constructor
+      · intro e; injection e with e; subst e; exact ⟨rfl, fun r hr => List.all_eq_true.mp hw r hr⟩
+      · intro ⟨e, _⟩; injection e with e; subst e; rfl
+    · simp only [hw, if_false, Bool.false_eq_true]
+      constructor
+      · intro e; cases e
+      · intro ⟨_, hall⟩; exact absurd (List.all_eq_true.mpr hall) hw
+
+/-- one malformed entry anywhere refuses the whole configuration -/
+theorem applyRaw_malformed_refused (nm : Naming) (a : Attr) (res : List RawEntry) (r : RawEntry) (hr : r ∈ res)
+    (hbad : r.wellFormed = false) : ∃ e, applyRaw nm a res = .error e := by
+  cases h : applyRaw nm a res with
+  | error e => exact ⟨e, rfl⟩
+  | ok a' =>
+    have := ((applyRaw_ok_iff nm a a' res).mp h).2 r hr
+    rw [hbad] at this; cases this
+
+/-- **a refused configuration changes nothing**: neither an attribute of any node nor — the compound priorities being a
+    function of the priorities — any compound priority. -/
+theorem reconfigure_refused (nm : Naming) (a : Attr) (res : List RawEntry) (e : RawErr) (h : applyRaw nm a res = .error e) :
+    reconfigure nm a res = a := by
+  unfold reconfigure; rw [h]
+
+theorem reconfigure_refused_cp (g : G) (nm : Naming) (a : Attr) (res : List RawEntry) (e : RawErr)
+    (h : applyRaw nm a res = .error e) (x : Node) :
+    cpAll g (reconfigure nm a res).prio x = cpAll g a.prio x := by
+  rw [reconfigure_refused nm a res e h]
+
+/-- an accepted configuration is the well-formed law of `applyConfig_spec` -/
+theorem reconfigure_accepted (nm : Naming) (a a' : Attr) (res : List RawEntry) (h : applyRaw nm a res = .ok a') :
+    reconfigure nm a res = a' ∧ applyConfig nm a (res.map (·.entry)) = .ok a' := by
+  refine ⟨by unfold reconfigure; rw [h], ((applyRaw_ok_iff nm a a' res).mp h).1⟩
+
+/-- giving the configuration again after dropping its malformed entries: it is decided from the UNTOUCHED state, exactly
+    as if the refused attempt had never been made -/
+theorem retry_after_refusal (nm : Naming) (a : Attr) (res : List RawEntry) (e : RawErr) (h : applyRaw nm a res = .error e)
+    (res' : List RawEntry) :
+    applyRaw nm (reconfigure nm a res) res' = applyRaw nm a res' := by
+  rw [reconfigure_refused nm a res e h]
+
 end GM
